@@ -148,14 +148,25 @@ func (m *C09Monitor) afterSetPass(r *Runner, pv *PassView) error {
 			r.Labels["c09-paused-pass-sees-drift"] = true
 		}
 	}
-	if pv.P.Err != "" || len(pv.StatusWrites) == 0 {
+	if pv.P.Err != "" {
 		return nil
 	}
 	if !pv.P.Result.IsZero() {
 		return nil
 	}
-	sw := pv.StatusWrites[len(pv.StatusWrites)-1]
-	conds := engine.Conditions(asMap(sw.Body))
+	// "keeps probing them and reporting Available and Paused": what stands in the status after a completed paused pass - the
+	// status this pass wrote or, if it wrote none, the one it left standing - has to be the verdict over what it observed
+	var conds map[string]engine.Cond
+	if len(pv.StatusWrites) > 0 {
+		conds = engine.Conditions(asMap(pv.StatusWrites[len(pv.StatusWrites)-1].Body))
+	} else {
+		cur := r.W.Store.PeekNoCopy(pv.OwnerKey)
+		if cur == nil || engine.UID(cur) != engine.UID(pv.Owner) || engine.Generation(cur) != engine.Generation(pv.Owner) {
+			return nil
+		}
+		r.Labels["c09-paused-pass-without-status-write"] = true
+		conds = engine.Conditions(cur)
+	}
 	pc, hasP := conds["Paused"]
 	if !hasP || pc.Status == "False" || (!hasDelegated && pc.Status != "True") {
 		return Violf("C09", "paused-not-reported", "pass %d: %s %s is paused but the status written reports Paused=%q", pv.P.ID, ownerID.Kind, ownerName, pc.Status)
